@@ -449,16 +449,20 @@ Definition command (m : mbp) (s : cst) : prog (cst + cst) :=
   cx <- rbits cnb ;;
   let ilen := ibase + ix in
   let clen := cbase + cx in
-  (* literals.  order: all ILEN literals are decoded before the total is
-     compared with MLEN *)
+  (* 9.3/10: the meta-block must produce exactly MLEN bytes.  order: the
+     reference decoder decodes the literals first, but it never reports
+     "needs more input" once ILEN exceeds what is left of MLEN, so the check
+     is made here *)
+  assert_p (ilen <=? c_rem s) ECorrupted ;;;
+  (* literals *)
   bl <- (if ilen =? 0 then Ret (c_bl s) else
          HistB 1 (fun p1 => HistB 2 (fun p2 =>
            let b0 := c_bl s in
            ls <- loop (loop_depth ilen) (lit_body m)
                       (mkLst ilen b0 (nthN (m_cmodes m) (b_cur b0)) (lit_slice m (b_cur b0)) p1 p2) ;;
            Ret (l_b ls)))) ;;
-  if c_rem s <? ilen then Throw ECorrupted
-  else if c_rem s =? ilen then Ret (inr (mkCst 0 bl bi (c_bd s) (c_ring s)))   (* copy length ignored *)
+  (* MLEN reached after the insert: the copy length is ignored *)
+  if c_rem s =? ilen then Ret (inr (mkCst 0 bl bi (c_bd s) (c_ring s)))
   else
   let rem := c_rem s - ilen in
   (* distance, section 4: implicit distance code 0 below 128 *)
